@@ -294,7 +294,10 @@ func runC08(c *Ctx) error {
 		c.count(tag, true, "kind=schedule", fmt.Sprintf("goroutines=%d", ng))
 	}
 	// ---- (c) directed schedule: an asynchronous broadcast job waiting behind a parked writer while its Broadcaster is closed
-	return parkedBroadcastScenario(c)
+	if err := parkedBroadcastScenario(c); err != nil {
+		return err
+	}
+	return sharedBroadcastFrameScenario(c)
 }
 
 func minInt(a, b int) int {
